@@ -9,7 +9,7 @@ use crate::model::{MV, json};
 use proptest::prelude::*;
 use serde::{Deserialize, Serialize};
 
-pub const RULE: &str = "generated scripts of 1-10 statements (bindings, `output name`, `output name = expr`, expression statements, comments; 0-6 output declarations incl. repeated names; values computable by the harness: literals, #k, inputs.k, references, arithmetic, lists and records of these) with an optional failing statement at any position (unknown identifier, type error, call of a non-function, rebinding, output of an unbound name, parse error) x input sets (optional piped stdin and 0-4 --input flags; objects and non-objects; overlapping keys; occasionally invalid JSON or invalid UTF-8, also on stdin) x invocation modes (file path, inline source, -e with the source on stdin, each with or without -o FILE), run in the real release binary and compared with a reference model of merging, bind-once evaluation, outputs and exit status. Non-trivial = at least one output declaration together with overlapping input keys or a failing statement; distinct by (script, inputs, mode).";
+pub const RULE: &str = "generated scripts of 1-10 statements (bindings, `output name`, `output name = expr`, expression statements, comments; 0-6 output declarations incl. repeated names; values computable by the harness: literals, #k, inputs.k, references, arithmetic, lists and records of these) with an optional failing statement at any position (unknown identifier, type error, call of a non-function, rebinding, output of an unbound name, parse error) x input sets (optional piped stdin and 0-4 --input flags; objects and non-objects; overlapping keys; occasionally invalid JSON or invalid UTF-8, also on stdin) x invocation modes (file path, inline source, -e with the source on stdin, each with or without -o FILE), run in the real release binary and compared with a reference model of merging, bind-once evaluation, outputs and exit status. Fixed scenarios add: one key given two or three times with object values of different field sets (the later object replaces the earlier one as a whole), scripts with tokens / strings / comments of 200 to 20 000 bytes in every mode, and slow producers (the piped document or -e script arrives 0.4-1.5 s late, in two pieces; also 1 in 40 random cases). Non-trivial = at least one output declaration together with overlapping input keys or a failing statement; distinct by (script, inputs, mode).";
 pub const ASSUMPTIONS: &[&str] = &[
     "only finite numbers are used (JSON cannot carry infinities)",
     "the failing statement kinds are those the model can predict; a parse error anywhere fails the whole script before any statement runs",
@@ -65,6 +65,9 @@ pub struct Case {
     /// the --output file already exists (with longer, unrelated content) before the run
     #[serde(default)]
     pub precreate: bool,
+    /// the producer of stdin is slow: (bytes written at once, pause in ms before the rest)
+    #[serde(default)]
+    pub slow_stdin: Option<(u16, u16)>,
 }
 
 pub struct Cli;
@@ -265,7 +268,11 @@ impl Check for Cli {
                 stdin_data = Some(script.clone().into_bytes());
             }
         }
-        let r = run_proc(&ctx.cli_path, &args, stdin_data.as_deref(), Some(&dir), &Limits::default());
+        let pace = c.slow_stdin.map(|(at, ms)| (at as usize, std::time::Duration::from_millis(ms as u64)));
+        if pace.is_some() && stdin_data.is_some() {
+            ctx.label("slow-stdin-producer");
+        }
+        let r = crate::engine::proc::run_paced(&ctx.cli_path, &args, stdin_data.as_deref(), Some(&dir), &Limits::default(), pace);
         let file_content = std::fs::read_to_string(&out_path).ok();
         let _ = std::fs::remove_dir_all(&dir);
         let r = match r {
@@ -356,7 +363,17 @@ fn lit(t: &mut Tape) -> MV {
         4 => MV::Bool(t.pick(2) == 0),
         5 => MV::Null,
         6 => MV::List(vec![num(1.0), num(2.0)]),
-        _ => MV::Rec(vec![("a".into(), num(1.0)), ("z".into(), MV::Str("s".into()))]),
+        _ => {
+            // records with different field sets: a later one replaces an earlier one as a whole
+            let inner = |c: f64| MV::Rec(vec![(if c == 1.0 { "c" } else { "d" }.to_string(), num(c))]);
+            match t.pick(6) {
+                0 | 1 => MV::Rec(vec![("a".into(), num(1.0)), ("z".into(), MV::Str("s".into()))]),
+                2 => MV::Rec(vec![("a".into(), num(2.0))]),
+                3 => MV::Rec(vec![]),
+                4 => MV::Rec(vec![("z".into(), MV::Null), ("b".into(), inner(1.0))]),
+                _ => MV::Rec(vec![("b".into(), inner(2.0))]),
+            }
+        }
     }
 }
 
@@ -483,7 +500,9 @@ fn case(tape: &[u16]) -> Case {
         }
     }
     let precreate = out_file && t.chance(1, 2);
-    Case { stmts, inputs, mode, out_file, precreate }
+    // now and then the piped document arrives late and in two pieces
+    let slow_stdin = if t.chance(1, 40) { Some((t.pick(12) as u16, [350u16, 600, 1100][t.pick(3)])) } else { None };
+    Case { stmts, inputs, mode, out_file, precreate, slow_stdin }
 }
 
 pub fn run(ctx: &mut Ctx) {
@@ -491,13 +510,41 @@ pub fn run(ctx: &mut Ctx) {
     let obj = |pairs: Vec<(&str, MV)>| MV::Rec(pairs.into_iter().map(|(k, v)| (k.to_string(), v)).collect());
     let inp = |stdin: bool, v: MV| Input { stdin, text: json::write(&v, 0), valid: Some(v), bad_utf8: false };
     let fixed = vec![
-        Case { stmts: vec![Stmt::OutputBind("p".into(), Val::Add(Box::new(Val::Hash("a".into())), Box::new(Val::InputsDot("b".into()))))], inputs: vec![inp(true, obj(vec![("a", num(1.0)), ("b", num(2.0))])), inp(false, obj(vec![("b", num(10.0))])), inp(false, obj(vec![("a", num(5.0))]))], mode: 0, out_file: false, precreate: false },
-        Case { stmts: vec![Stmt::OutputBind("p".into(), Val::List(vec![Val::Hash("value_1".into()), Val::Hash("value_2".into()), Val::Hash("value_3".into())]))], inputs: vec![inp(true, num(3.0)), inp(false, MV::Str("x".into())), inp(false, obj(vec![("value_total", num(1.0))])), inp(false, MV::Null)], mode: 1, out_file: false, precreate: false },
-        Case { stmts: vec![Stmt::OutputBind("p".into(), Val::Hash("value_1".into()))], inputs: vec![inp(false, obj(vec![("value_1", MV::Str("a".into()))])), inp(false, num(7.0))], mode: 0, out_file: true, precreate: true },
-        Case { stmts: vec![Stmt::Bind("p".into(), Val::Lit(num(1.0))), Stmt::Output("p".into()), Stmt::Output("q".into())], inputs: vec![], mode: 2, out_file: false, precreate: false },
-        Case { stmts: vec![Stmt::OutputBind("p".into(), Val::Lit(num(1.0))), Stmt::Fail("nope".into(), false)], inputs: vec![], mode: 0, out_file: true, precreate: true },
-        Case { stmts: vec![], inputs: vec![], mode: 1, out_file: false, precreate: false },
+        Case { stmts: vec![Stmt::OutputBind("p".into(), Val::Add(Box::new(Val::Hash("a".into())), Box::new(Val::InputsDot("b".into()))))], inputs: vec![inp(true, obj(vec![("a", num(1.0)), ("b", num(2.0))])), inp(false, obj(vec![("b", num(10.0))])), inp(false, obj(vec![("a", num(5.0))]))], mode: 0, out_file: false, precreate: false, slow_stdin: None },
+        Case { stmts: vec![Stmt::OutputBind("p".into(), Val::List(vec![Val::Hash("value_1".into()), Val::Hash("value_2".into()), Val::Hash("value_3".into())]))], inputs: vec![inp(true, num(3.0)), inp(false, MV::Str("x".into())), inp(false, obj(vec![("value_total", num(1.0))])), inp(false, MV::Null)], mode: 1, out_file: false, precreate: false, slow_stdin: None },
+        Case { stmts: vec![Stmt::OutputBind("p".into(), Val::Hash("value_1".into()))], inputs: vec![inp(false, obj(vec![("value_1", MV::Str("a".into()))])), inp(false, num(7.0))], mode: 0, out_file: true, precreate: true, slow_stdin: None },
+        Case { stmts: vec![Stmt::Bind("p".into(), Val::Lit(num(1.0))), Stmt::Output("p".into()), Stmt::Output("q".into())], inputs: vec![], mode: 2, out_file: false, precreate: false, slow_stdin: None },
+        Case { stmts: vec![Stmt::OutputBind("p".into(), Val::Lit(num(1.0))), Stmt::Fail("nope".into(), false)], inputs: vec![], mode: 0, out_file: true, precreate: true, slow_stdin: None },
+        Case { stmts: vec![], inputs: vec![], mode: 1, out_file: false, precreate: false, slow_stdin: None },
     ];
+    let mut fixed = fixed;
+    // the same key given twice with object values: the later object replaces the earlier one
+    let cfg1 = obj(vec![("cfg", obj(vec![("a", num(1.0)), ("b", num(2.0))]))]);
+    let cfg2 = obj(vec![("cfg", obj(vec![("b", num(3.0))]))]);
+    let cfg3 = obj(vec![("cfg", obj(vec![]))]);
+    let cfg4 = obj(vec![("cfg", obj(vec![("b", obj(vec![("deep", num(1.0))]))]))]);
+    let cfg5 = obj(vec![("cfg", obj(vec![("b", obj(vec![("other", num(2.0))]))]))]);
+    let show = || vec![Stmt::OutputBind("p".into(), Val::List(vec![Val::Hash("cfg".into()), Val::InputsDot("cfg".into())]))];
+    for (first_on_stdin, docs) in [(true, vec![&cfg1, &cfg2]), (false, vec![&cfg1, &cfg2]), (false, vec![&cfg1, &cfg3]), (true, vec![&cfg2, &cfg1, &cfg3]), (false, vec![&cfg4, &cfg5]), (true, vec![&cfg4, &cfg5, &cfg1]), (false, vec![&cfg1, &cfg2, &cfg1])] {
+        for mode in [0u8, 1] {
+            let inputs: Vec<Input> = docs.iter().enumerate().map(|(i, d)| inp(first_on_stdin && i == 0, (*d).clone())).collect();
+            fixed.push(Case { stmts: show(), inputs, mode, out_file: false, precreate: false, slow_stdin: None });
+        }
+    }
+    // slow producers: the piped inputs (or the -e script) arrive late and in pieces
+    for (at, ms) in [(0u16, 400u16), (1, 400), (5, 700), (3, 1200), (0, 1500)] {
+        for mode in [0u8, 1, 2] {
+            fixed.push(Case { stmts: vec![Stmt::OutputBind("p".into(), Val::List(vec![Val::Hash("a".into()), Val::InputsDot("b".into())]))], inputs: vec![inp(true, obj(vec![("a", num(1.0)), ("b", MV::Str("x".into()))]))], mode, out_file: false, precreate: false, slow_stdin: Some((at, ms)) });
+        }
+    }
+    // long scripts and long tokens in every invocation mode (an inline script is never a path)
+    for n in [200usize, 254, 255, 256, 257, 300, 1000, 4094, 4095, 4096, 4097, 5000, 20000] {
+        for mode in [0u8, 1, 2] {
+            fixed.push(Case { stmts: vec![Stmt::OutputBind("p".into(), Val::Lit(MV::Str("a".repeat(n))))], inputs: vec![], mode, out_file: false, precreate: false, slow_stdin: None });
+            fixed.push(Case { stmts: vec![Stmt::Bind(format!("n{}", "a".repeat(n)), Val::Lit(num(1.0))), Stmt::Output(format!("n{}", "a".repeat(n)))], inputs: vec![], mode, out_file: n % 2 == 0, precreate: false, slow_stdin: None });
+            fixed.push(Case { stmts: vec![Stmt::Comment("c".repeat(n)), Stmt::OutputBind("p".into(), Val::Lit(num(1.0)))], inputs: vec![], mode, out_file: false, precreate: false, slow_stdin: None });
+        }
+    }
     ctx.run_enum(&Cli, fixed.into_iter().filter(|c| !c.stmts.is_empty()), false);
     ctx.run_random(&Cli, prop::collection::vec(any::<u16>(), 0..160).prop_map(|t| case(&t)), ctx.tier.pick(4_000, 80_000));
     let _ = pick_idx(0, 1);
